@@ -119,6 +119,12 @@ fn main() {
             rc.known_lines.push(line);
             continue;
         }
+        if f.message.starts_with("PANIC escaped the case function") || f.message.starts_with("proptest aborted") {
+            // every call into the code under test is made under catch_unwind: an escaped panic is a bug of the harness itself
+            let p = write_replay(&root, "replays", prop.id, &f, None);
+            rc.inconclusive.push(format!("harness bug in stage {} ({}): {}", f.stage, p.display(), f.message));
+            continue;
+        }
         let rendered = find_stage(prop, f.stage).and_then(|s| replay_stage(s, &f.input, true).1);
         let p = write_replay(&root, "replays", prop.id, &f, rendered.clone());
         println!("stage {}: {}", f.stage, f.message);
